@@ -172,28 +172,42 @@ def oracle(case):
     return fails
 
 
-def sample_oracle(rng):
-    """a sample of distance-ratio lenses gives a flat H0 posterior through CosmoLikelihood"""
+def sample_oracle(seed):
+    """a sample of distance-ratio lenses gives a flat H0 posterior through CosmoLikelihood — for all hyper-parameter
+    values: sharp populations, and populations of finite width (the N-draw marginalisation, evaluated under one and the
+    same seed at every H0: the draws do not depend on H0 either)"""
+    import random
     from hierarc.Likelihood.cosmo_likelihood import CosmoLikelihood
+    rng = random.Random(seed)
     lenses = []
+    scatter = rng.random() < 0.6
     for _ in range(rng.choice([1, 2])):
         lt = rng.choice(["IFUKinCov", "DsDdsGaussian"])
         data = lc.data_kwargs(rng, lt)
-        lenses.append(dict(z_lens=rng.uniform(0.3, 0.7), z_source=rng.uniform(1.2, 2.2), likelihood_type=lt, **data))
+        lenses.append(dict(z_lens=rng.uniform(0.3, 0.7), z_source=rng.uniform(1.2, 2.2), likelihood_type=lt,
+                           num_distribution_draws=rng.choice([10, 25]), **data))
     model = rng.choice(["FLCDM", "FwCDM", "w0waCDM", "oLCDM"])
     kb = dict(kwargs_lower_cosmo={"h0": 10, "om": 0.05, "w": -3, "w0": -3, "wa": -3, "ok": -0.5},
               kwargs_upper_cosmo={"h0": 200, "om": 0.9, "w": 0, "w0": 0, "wa": 3, "ok": 0.5})
-    interp = rng.random() < 0.5
-    cl = CosmoLikelihood(lenses, model, {}, kb, interpolate_cosmo=interp, num_redshift_interp=400)
+    km = {}
     p = gen_params(rng, model)
+    if scatter:
+        km = {"lambda_mst_sampling": True, "lambda_mst_distribution": "GAUSSIAN"}
+        kb.update(kwargs_lower_lens={"lambda_mst": 0.5, "lambda_mst_sigma": 0.0}, kwargs_upper_lens={"lambda_mst": 1.5, "lambda_mst_sigma": 0.5})
+        p = dict(p, lambda_mst=rng.uniform(0.9, 1.1), lambda_mst_sigma=rng.uniform(0.02, 0.1))
+    interp = rng.random() < 0.5
+    cl = CosmoLikelihood(lenses, model, km, kb, interpolate_cosmo=interp, num_redshift_interp=400)
     names = cl.param.param_list()
     vals = []
+    s0 = rng.randrange(2 ** 30)
     for h0 in (rng.uniform(35, 60), rng.uniform(65, 75), rng.uniform(85, 140)):
         x = [h0 if n == "h0" else p[n] for n in names]
+        np.random.seed(s0)
         vals.append(float(np.squeeze(cl.likelihood(x))))
     tol = (2e-4 if interp else 1e-7) * max(1.0, abs(vals[0]))
     if max(vals) - min(vals) > tol:
-        return "a %s sample of distance-ratio lenses has an H0-dependent log-probability: %r" % (model, vals)
+        return "a %s sample of distance-ratio lenses (%s) has an H0-dependent log-probability: %r" % (
+            model, "populations of finite width, same seed at every H0" if scatter else "sharp populations", vals)
     return None
 
 
@@ -240,15 +254,16 @@ def run(ctx, res):
                 lines.append(line)
                 meta.append((case["ltype"], v, scaled))
     for _ in range(ctx.n(10, 80)):
+        sseed = rng.randrange(2 ** 30)
         try:
-            f = sample_oracle(rng)
+            f = sample_oracle(sseed)
         except Exception as e:  # noqa
             res.notes.append("sample oracle failed to run: %r" % (e,))
             continue
         res.evaluations += 1
         res.count("sample_flat_H0")
         if f:
-            res.violation("H0-scaling[sample]:flat-posterior", f, {"sample": True})
+            res.violation("H0-scaling[sample]:flat-posterior", f, {"sample": True, "seed": sseed})
     if ctx.search_mode:
         return
     outs = run_driver(lines)
@@ -265,11 +280,8 @@ def run(ctx, res):
 def replay(ctx, data):
     import random
     if data["input"].get("sample"):
-        for s in range(30):
-            f = sample_oracle(random.Random(s))
-            if f:
-                return True, f
-        return False, "sample oracle holds"
+        f = sample_oracle(data["input"].get("seed", 0))
+        return bool(f), (f or "sample oracle holds")
     # cases carry numpy data: re-generate with the recorded seed/tier
     rng = random.Random("%s-%d" % ("C19", ctx.seed))
     per = ctx.n(5, 90)
